@@ -33,6 +33,159 @@ def drivers(lens):
     return ds
 
 
+def corpus_drivers():
+    """native round trips through the library's own signers (closed cases; replay material, not solver coverage)"""
+    ds = []
+    # Ed25519: sign with a seed-derived key, blank the last rm bits, complete; st bit0: Some, bit1: equals the original
+    body = ("        let sk = crate::ed25519::PrivateKey::from_seed(&seed[..]);\n"
+            "        let sig = match variant { 0 => sk.sign_raw(&msg[..]), 1 => sk.sign_ctx(&ctx[..cl as usize], &msg[..]), _ => sk.sign_ph(&ctx[..cl as usize], &msg[..]) };\n"
+            "        let mut t = sig; let rmu = rm as usize;\n"
+            "        for i in 0..(rmu >> 3) { t[63 - i] = fill; }\n"
+            "        if (rmu & 7) != 0 { let j = 63 - (rmu >> 3); t[j] = (t[j] & (0xFFu8 >> (rmu & 7))) | (fill & !(0xFFu8 >> (rmu & 7))); }\n"
+            "        if flip < 64 { t[flip as usize] ^= 1; }\n"
+            "        let pk = sk.public_key;\n"
+            "        let r = match variant { 0 => pk.verify_trunc_raw(&t, rmu, &msg[..]), 1 => pk.verify_trunc_ctx(&t, rmu, &ctx[..cl as usize], &msg[..]), _ => pk.verify_trunc_ph(&t, rmu, &ctx[..cl as usize], &msg[..]) };\n"
+            "        st[0] = match r { Some(f) => { *out = f; 1 | (((f == sig) as u32) << 1) } None => 0 };")
+    ds.append(Driver("drv_c13_ed", [("seed", "in", 1, 32), ("msg", "in", 1, 16), ("ctx", "in", 1, 8), ("cl", "val", 4, 1), ("variant", "val", 4, 1),
+                                    ("rm", "val", 4, 1), ("fill", "val", 1, 1), ("flip", "val", 4, 1), ("out", "out", 1, 64), ("st", "out", 4, 1)], body))
+    # P-256: sign, prepare, blank, complete; st bit0: Some, bit1: completed signature verifies, bit2: r unchanged
+    body = ("        let sk = crate::p256::PrivateKey::from_seed(&seed[..]); let pk = sk.to_public_key();\n"
+            "        let sig = sk.sign_hash(&hv[..], &[]);\n"
+            "        let p = match crate::p256::PrivateKey::prepare_truncate(&sig) { Some(p) => p, None => { st[0] = 0x100; return; } };\n"
+            "        let mut t = p; let rmu = rm as usize;\n"
+            "        for i in 0..(rmu >> 3) { t[63 - i] = fill; }\n"
+            "        if (rmu & 7) != 0 { let j = 63 - (rmu >> 3); t[j] = (t[j] & (0xFFu8 >> (rmu & 7))) | (fill & !(0xFFu8 >> (rmu & 7))); }\n"
+            "        if flip < 64 { t[flip as usize] ^= 1; }\n"
+            "        st[0] = match pk.verify_trunc_hash(&t, rmu, &hv[..]) { Some(f) => { *out = f; 1 | ((pk.verify_hash(&f, &hv[..]) as u32) << 1) | (((f[..32] == sig[..32]) as u32) << 2) } None => 0 };")
+    ds.append(Driver("drv_c13_p256", [("seed", "in", 1, 32), ("hv", "in", 1, 32), ("rm", "val", 4, 1), ("fill", "val", 1, 1), ("flip", "val", 4, 1),
+                                      ("out", "out", 1, 64), ("st", "out", 4, 1)], body))
+    # P-256: the s = 0 corner (h*G + r*Q neutral, transmitted part of s zero): must be None
+    body = ("        let d = crate::p256::Scalar::decode_reduce(&seed[..]);\n"
+            "        let sk = match crate::p256::PrivateKey::decode(&{ let mut e = d.encode(); e.reverse(); e }) { Some(k) => k, None => { st[0] = 0x100; return; } };\n"
+            "        let pk = sk.to_public_key();\n"
+            "        let rp = crate::p256::Point::mulgen(&crate::p256::Scalar::from_u64(kk[0] | 1)); let renc = rp.encode_compressed();\n"
+            "        let mut rb = [0u8; 32]; rb.copy_from_slice(&renc[1..33]); let mut rl = rb; rl.reverse();\n"
+            "        let r = crate::p256::Scalar::decode_reduce(&rl); let h = -(r * d); let mut hv = h.encode(); hv.reverse();\n"
+            "        let mut sig = [0u8; 64]; sig[..32].copy_from_slice(&rb);\n"
+            "        st[0] = match pk.verify_trunc_hash(&sig, rm as usize, &hv) { Some(f) => { *out = f; 1 | ((pk.verify_hash(&f, &hv) as u32) << 1) } None => 0 };")
+    ds.append(Driver("drv_c13_p256_s0", [("seed", "in", 1, 32), ("kk", "in", 8, 1), ("rm", "val", 4, 1), ("out", "out", 1, 64), ("st", "out", 4, 1)], body))
+    # P-256: a VALID signature whose transmitted part of s is all zero (s = top << (256 - rm)): hv chosen as s*k - r*d
+    body = ("        let d = crate::p256::Scalar::decode_reduce(&seed[..]);\n"
+            "        let sk = match crate::p256::PrivateKey::decode(&{ let mut e = d.encode(); e.reverse(); e }) { Some(k) => k, None => { st[0] = 0x100; return; } };\n"
+            "        let pk = sk.to_public_key(); let rmu = rm as usize;\n"
+            "        let k = crate::p256::Scalar::from_u64(kk[0] | 1);\n"
+            "        let rp = crate::p256::Point::mulgen(&k); let renc = rp.encode_compressed();\n"
+            "        let mut rb = [0u8; 32]; rb.copy_from_slice(&renc[1..33]); let mut rl = rb; rl.reverse();\n"
+            "        let r = crate::p256::Scalar::decode_reduce(&rl);\n"
+            "        let mut sl = [0u8; 32]; let tv = ((top as u64) % ((1u64 << (rmu - 1)) - 1) + 1) << (64 - rmu); sl[24..32].copy_from_slice(&tv.to_le_bytes());\n"
+            "        let sc = crate::p256::Scalar::decode_reduce(&sl); let h = sc * k - r * d; let mut hv = h.encode(); hv.reverse();\n"
+            "        let mut full = [0u8; 64]; full[..32].copy_from_slice(&rb); { let mut sb = sl; sb.reverse(); full[32..].copy_from_slice(&sb); }\n"
+            "        if !pk.verify_hash(&full, &hv) { st[0] = 0x200; return; }\n"
+            "        let mut t = [0u8; 64]; t[..32].copy_from_slice(&rb);\n"
+            "        st[0] = match pk.verify_trunc_hash(&t, rmu, &hv) { Some(f) => { *out = f; 1 | (((f == full) as u32) << 1) } None => 0 };")
+    ds.append(Driver("drv_c13_p256_zs0", [("seed", "in", 1, 32), ("kk", "in", 8, 1), ("top", "val", 4, 1), ("rm", "val", 4, 1), ("out", "out", 1, 64), ("st", "out", 4, 1)], body))
+    return ds
+
+
+def check_corpus(built, tier):
+    from .lhelp import native_crashes
+    obs = []
+    r = rng("c13corpus")
+    rms = [8, 12, 16] if tier == "quick" else [8, 9, 15, 16, 17, 24, 32]
+    nkeys = 6 if tier == "quick" else 16
+
+    def run1(ob, drv, inputs, want, what):
+        crashed, err = native_crashes(built, drv, inputs, timeout=300)
+        if crashed:
+            ob.fail({"key": ob.name.split(":", 1)[1] + ".panic", "inputs": {k: (bytes(v).hex() if isinstance(v, list) and k not in ("kk",) else v) for k, v in inputs.items()},
+                     "native_stderr": err[-300:], "found_by": "native replay of closed cases"}, "native", 0.0, 0)
+            return False
+        st = built.native(drv, inputs)["st"][0]
+        if not want(st):
+            ob.fail({"key": ob.name.split(":", 1)[1], "what": what, "inputs": {k: (bytes(v).hex() if isinstance(v, list) and k not in ("kk",) else v) for k, v in inputs.items()},
+                     "status": hex(st), "found_by": "native replay of closed cases (library signer -> truncation -> completion)"}, "native", 0.0, 0)
+            return False
+        return True
+    # Ed25519
+    ob = Obligation("default:ed25519.verify_trunc:roundtrip", "ground", ["ed25519::PublicKey::verify_trunc_raw/ctx/ph"],
+                    "closed cases: %d seed-derived keys x rm in %s x 3 variants (empty and non-empty context), arbitrary filler in the removed bits" % (nkeys, rms),
+                    "a library signature with its last rm bits replaced is completed to the original; one flipped kept bit => None")
+    obs.append(ob)
+    t0 = time.time()
+    n = 0
+    ok = True
+    for it in range(nkeys):
+        seed = [r.getrandbits(8) for _ in range(32)]
+        msg = [r.getrandbits(8) for _ in range(16)]
+        ctx = [r.getrandbits(8) for _ in range(8)]
+        for variant in (0, 1, 2):
+            cl = r.choice([0, 0, 3, 8]) if variant else 0
+            rm = rms[(it + variant) % len(rms)]
+            base = {"seed": seed, "msg": msg, "ctx": ctx, "cl": cl, "variant": variant, "rm": rm, "fill": r.choice([0, 0xFF, r.getrandbits(8)])}
+            ok = ok and run1(ob, "drv_c13_ed", dict(base, flip=64), lambda st: st == 3, "valid truncated signature not completed to the original")
+            n += 1
+            if ok and it % 2 == 0:
+                ok = run1(ob, "drv_c13_ed", dict(base, flip=r.randrange(0, 64 - (rm + 7) // 8 - 1)), lambda st: st == 0, "corrupted truncated signature completed")
+                n += 1
+            if not ok:
+                break
+        if not ok:
+            break
+    if ok:
+        ob.ok("native replay x%d" % n, time.time() - t0, 0, syntactic=True)
+    # P-256
+    ob = Obligation("default:p256.verify_trunc_hash:roundtrip", "ground", ["p256::PublicKey::verify_trunc_hash", "p256::PrivateKey::prepare_truncate"],
+                    "closed cases: %d seed-derived keys x rm in %s" % (nkeys, rms),
+                    "sign_hash -> prepare_truncate -> removed bits replaced -> completed signature verifies with the same r; one flipped kept bit => None")
+    obs.append(ob)
+    t0 = time.time()
+    n = 0
+    ok = True
+    for it in range(nkeys):
+        seed = [r.getrandbits(8) for _ in range(32)]
+        hv = [r.getrandbits(8) for _ in range(32)]
+        rm = rms[it % len(rms)]
+        base = {"seed": seed, "hv": hv, "rm": rm, "fill": r.choice([0, 0xFF, r.getrandbits(8)])}
+        ok = run1(ob, "drv_c13_p256", dict(base, flip=64), lambda st: st == 7 or st == 0x100, "valid truncated signature not completed to a valid signature with the same r")
+        n += 1
+        if ok and it % 2 == 0:
+            ok = run1(ob, "drv_c13_p256", dict(base, flip=r.randrange(32, 64 - (rm + 7) // 8 - 1)), lambda st: st in (0, 0x100), "corrupted truncated signature completed")
+            n += 1
+        if not ok:
+            break
+    if ok:
+        ob.ok("native replay x%d" % n, time.time() - t0, 0, syntactic=True)
+    ob = Obligation("default:p256.verify_trunc_hash:s=0", "ground", ["p256::PublicKey::verify_trunc_hash"],
+                    "closed cases: hv = -r*d mod n (so that h*G + r*Q is the point at infinity), transmitted part of s zero, %d keys" % nkeys,
+                    "returns None (a completed signature must be valid: s in 1..n-1)")
+    obs.append(ob)
+    t0 = time.time()
+    ok = True
+    for it in range(nkeys):
+        seed = [r.getrandbits(8) for _ in range(32)]
+        ok = run1(ob, "drv_c13_p256_s0", {"seed": seed, "kk": [r.getrandbits(63)], "rm": rms[it % len(rms)]}, lambda st: st in (0, 0x100),
+                  "Some(r || 0) returned: a signature with s = 0 that verify_hash rejects")
+        if not ok:
+            break
+    if ok:
+        ob.ok("native replay x%d" % nkeys, time.time() - t0, 0, syntactic=True)
+    ob = Obligation("default:p256.verify_trunc_hash:zero_kept_part", "ground", ["p256::PublicKey::verify_trunc_hash", "p256::Point::to_x_affine_diff"],
+                    "closed cases: valid signatures (hv = s*k - r*d) whose transmitted part of s is all zero (s0*R is the point at infinity), %d keys" % nkeys,
+                    "completed to the original valid signature")
+    obs.append(ob)
+    t0 = time.time()
+    ok = True
+    for it in range(nkeys):
+        seed = [r.getrandbits(8) for _ in range(32)]
+        ok = run1(ob, "drv_c13_p256_zs0", {"seed": seed, "kk": [r.getrandbits(63)], "top": r.getrandbits(31), "rm": rms[it % len(rms)]},
+                  lambda st: st in (3, 0x100), "valid signature with an all-zero transmitted s part not completed (or driver self-check 0x200)")
+        if not ok:
+            break
+    if ok:
+        ob.ok("native replay x%d" % nkeys, time.time() - t0, 0, syntactic=True)
+    return obs
+
+
 def be(em, bs, width):
     if not bs:
         return bvc(0, width)
@@ -136,7 +289,7 @@ def reference(sig, nat):
 def run(tier, only=None):
     t0 = time.time()
     lens = [0, 1, 2, 30, 32, 34, 48, 62, 63, 64, 65, 66] if tier == "quick" else list(range(0, 68))
-    built = build(drivers(lens), tag="C13-default")
+    built = build(drivers(lens) + corpus_drivers(), tag="C13-default")
     timeout = 60 if tier == "quick" else 300
 
     def work(n):
@@ -151,6 +304,8 @@ def run(tier, only=None):
             o = Obligation("default:p256.prepare_truncate[len=%d]" % n, "L")
             o.unknown("%s: %s" % (st, str(val)[-300:]))
             obs.append(o)
+    if not only or "corpus" in only:
+        obs.extend(check_corpus(built, tier))
     built.close()
     return finish("C13", tier, obs, t0,
                   functions_encoded=sorted(set(fn for o in obs for fn in o.functions)),
